@@ -363,6 +363,19 @@ fn cases(g: &mut Rng, secrets: &HashMap<String, String>, light: bool) -> Vec<Cas
                 v.push(mkc("copy/dropped-after-polls", copy("copy-source"), Some(p)));
             }
         }
+        // the store cannot put the object in place: the key names a directory of the store (another object lives under
+        // key/), or a parent of the key is an object.  The write fails at its very last step, after the whole body.
+        if previous.is_none() {
+            let child = put_req(&format!("{key}/child"), b"an object under key/");
+            let mut r = put_req(&key, &data);
+            r.framing = Some(Framing { cuts: cuts.clone(), ..Default::default() });
+            v.push(Case { fault: "put/key-is-a-directory".into(), previous: None, new_content: data.clone(), key: key.clone(), prepare: vec![child.clone()], req: r, drop_after_polls: None, n_frames: nf, k: 0, secrets: secrets.clone() });
+            let under = format!("{key}/below");
+            v.push(Case { fault: "put/parent-is-an-object".into(), previous: None, new_content: data.clone(), key: under.clone(), prepare: vec![put_req(&key, b"the parent is an object")], req: put_req(&under, &data), drop_after_polls: None, n_frames: 1, k: 0, secrets: secrets.clone() });
+            let src = g.bytes(3000);
+            let copy = RawRequest::new("PUT", &format!("/{BUCKET}/{key}")).header("host", "h").header("x-amz-copy-source", &format!("{BUCKET}/copy-source"));
+            v.push(Case { fault: "copy/key-is-a-directory".into(), previous: None, new_content: src.clone(), key: key.clone(), prepare: vec![put_req("copy-source", &src), child], req: copy, drop_after_polls: None, n_frames: 1, k: 0, secrets: secrets.clone() });
+        }
         // multipart completion: refused (missing part, parts out of order) and abandoned after p polls
         if !light || g.chance(1, 3) {
             let l1 = 5 * 1024 * 1024 + g.usize_below(1000);
